@@ -54,6 +54,26 @@ PAYLOAD_FORMS = [
     ("call_result", "", "", "make()", "unknown"),
     ("untyped_let", "", "let ul = make();", "ul", "unknown"),
     ("method_result", "p4: Pay", "", "p4.summary()", "unknown"),
+    # forms whose type is not syntactically evident -> unknown
+    ("qualified_call", "", "", "snapshot::current()", "unknown"),
+    ("assoc_call", "", "", "Pay::make()", "unknown"),
+    ("deep_call", "", "", "uuid::Uuid::new_v4()", "unknown"),
+    ("macro_call", "", "", "format!(\"x{}\", 1)", "unknown"),
+    ("field_access", "p5: Pay", "", "p5.v", "unknown"),
+    ("index_expr", "ps2: Vec<Pay>", "", "ps2[0]", "unknown"),
+    ("if_expr", "fl: bool", "", "if fl { 1 } else { 2 }", "unknown"),
+    ("cast_expr", "n9: u8", "", "n9 as u64", "unknown"),
+    ("tuple_expr", "p7: Pay", "", "(1, p7)", "unknown"),
+    ("array_expr", "", "", "[1, 2]", "unknown"),
+    ("vec_macro", "p10: Pay", "", "vec![p10]", "unknown"),
+    ("some_call", "", "", "Some(1)", "unknown"),
+    ("untyped_let_qualified", "", "let ulq = snapshot::current();", "ulq", "unknown"),
+    ("untyped_let_deep", "", "let uld = crate::snapshot::current();", "uld", "unknown"),
+    # evident through another spelling
+    ("qualified_struct", "", "", "crate::Pay { v: 1 }", {"k": "named", "n": "Pay"}),
+    ("ref_clone", "p8: Pay", "", "&p8.clone()", {"k": "named", "n": "Pay"}),
+    ("typed_let_qualified", "", "let tlq: crate::Pay = make();", "tlq", {"k": "named", "n": "Pay"}),
+    ("typed_param_tuple", "tp: (u8, Pay)", "", "tp", {"k": "tup", "ts": [{"k": "leaf", "c": "num"}, {"k": "named", "n": "Pay"}]}),
 ]
 
 
@@ -112,7 +132,7 @@ def run(tier, seed):
     projects.append(("repeat", src, emits))
     projects.append(("noevents", PC.EMIT_PRELUDE, []))
     # (5) payload forms
-    psrc = PC.EMIT_PRELUDE + "use tauri::Emitter;\n#[derive(Serialize, Deserialize, Clone)]\npub struct Pay {\n    pub v: i32,\n}\nfn make() -> Pay { Pay { v: 0 } }\n"
+    psrc = PC.EMIT_PRELUDE + "use tauri::Emitter;\n#[derive(Serialize, Deserialize, Clone)]\npub struct Pay {\n    pub v: i32,\n}\nimpl Pay {\n    pub fn make() -> Pay { Pay { v: 0 } }\n    pub fn summary(&self) -> String { String::new() }\n}\nmod snapshot {\n    pub fn current() -> super::Pay { super::Pay { v: 1 } }\n}\nfn make() -> Pay { Pay { v: 0 } }\n"
     pemits = []
     for j, (pid, params, pre, expr, exp) in enumerate(PAYLOAD_FORMS):
         psrc += "pub fn pay_%s(app: tauri::AppHandle%s) {\n    %s\n    app.emit(\"pay-%s\", %s).ok();\n}\n" % (
